@@ -123,6 +123,7 @@ func writeFacts(repo, out string) error {
 		return ok
 	}
 	stmtPollKeeps := false
+	copyFresh := false
 
 	for _, f := range files {
 		base := filepath.Base(f)
@@ -192,6 +193,31 @@ func writeFacts(repo, out string) error {
 					}
 					return true
 				})
+			}
+			// F7 Otto.Copy builds a fresh handle: `out := &Otto{runtime: o.runtime.clone()}` (no other field, no
+			// struct copy), `out.runtime.otto = out`, `return out`
+			if name == "Copy" && base == "otto.go" && len(fd.Body.List) == 3 {
+				as, ok1 := fd.Body.List[0].(*ast.AssignStmt)
+				back, ok2 := fd.Body.List[1].(*ast.AssignStmt)
+				ret, ok3 := fd.Body.List[2].(*ast.ReturnStmt)
+				if ok1 && ok2 && ok3 && len(as.Lhs) == 1 && len(as.Rhs) == 1 && len(back.Lhs) == 1 && len(back.Rhs) == 1 && len(ret.Results) == 1 {
+					outID, isID := as.Lhs[0].(*ast.Ident)
+					ue, isUE := as.Rhs[0].(*ast.UnaryExpr)
+					if isID && isUE {
+						if cl, isCL := ue.X.(*ast.CompositeLit); isCL && len(cl.Elts) == 1 {
+							if kv, isKV := cl.Elts[0].(*ast.KeyValueExpr); isKV {
+								k, _ := kv.Key.(*ast.Ident)
+								rhsID, _ := back.Rhs[0].(*ast.Ident)
+								retID, _ := ret.Results[0].(*ast.Ident)
+								sel, _ := back.Lhs[0].(*ast.SelectorExpr)
+								if k != nil && k.Name == "runtime" && hasSel(kv.Value, "clone") && rhsID != nil && rhsID.Name == outID.Name &&
+									retID != nil && retID.Name == outID.Name && sel != nil && sel.Sel.Name == "otto" {
+									copyFresh = true
+								}
+							}
+						}
+					}
+				}
 			}
 			// F2 label push / deferred pop, F3 poll at top
 			if name == "cmplEvaluateNodeStatement" || name == "cmplEvaluateNodeExpression" {
@@ -295,6 +321,7 @@ func writeFacts(repo, out string) error {
 	b.WriteString("]\n\n")
 	fmt.Fprintf(&b, "def forEmptyBodyPoll : Bool := %v\n\n", forPoll)
 	fmt.Fprintf(&b, "def stmtPollKeepsLabels : Bool := %v\n\n", stmtPollKeeps)
+	fmt.Fprintf(&b, "def copyFreshHandle : Bool := %v\n\n", copyFresh)
 	b.WriteString("def evaluatorLoops : List (String × Bool) := [")
 	for i, l := range loops {
 		if i > 0 {
